@@ -106,3 +106,15 @@ Theorem C03_vogp_ad_covering_is_vogp_covering_behind_the_gate : forall E depth m
     if vogp_ad_gate depth maxd enabled S then (true, vogp_epsiloncovering E S P []) else (enabled, (S, P, [])).
 Proof. reflexivity. Qed.
 Print Assumptions C03_vogp_ad_covering_is_vogp_covering_behind_the_gate.
+
+(* the eps-slack the covering tests are asked with, as the regenerated constructors define it: PaVeBa family — one entry per
+   facet, entry n = alpha_n * epsilon (its OWN allowance); VOGP / VOGP_AD — u* * epsilon in objective space *)
+From Coq Require Import QArith.
+From VOPy Require QVec ExtraRefine2.
+From VOPyGen Require Gen_extra2.
+Theorem C03_slack_of_facet_n_is_its_own_alpha_times_eps : forall (v : QVec.vec) (eps : QArith_base.Q),
+  length (Gen_extra2.gen_pv_slack v eps) = length v /\ length (Gen_extra2.gen_vg_slack v eps) = length v /\
+  forall n, (n < length v)%nat ->
+    nth n (Gen_extra2.gen_pv_slack v eps) 0%Q = (nth n v 0%Q * eps)%Q /\ nth n (Gen_extra2.gen_vg_slack v eps) 0%Q = (nth n v 0%Q * eps)%Q.
+Proof. exact ExtraRefine2.gen_slack_spec. Qed.
+Print Assumptions C03_slack_of_facet_n_is_its_own_alpha_times_eps.
